@@ -8,6 +8,7 @@ Import ListNotations.
 From TI Require Import model.Iter model.IterSpec proofs.IterProofs proofs.IterProofs2
      proofs.IterCacheProofs proofs.IterExamples.
 From TI Require Import model.IterWrap proofs.IterWrapProofs.
+From TI Require Import model.IterHash proofs.IterHashProofs.
 From TI Require model.ImgIter model.ImgIterSpec proofs.ImgIterProofs.
 Open Scope Z_scope.
 
@@ -118,3 +119,85 @@ Theorem C09_wrap_current :
     wrap_okb term (settings0 term c) ops (trace RS render n term s ops) = true.
 Proof. exact wrap_current. Qed.
 Print Assumptions C09_wrap_current.
+
+(** *** the VALUES of the settings (round 5).  The cache is validated by comparing the
+    settings a frame was rendered with — (size, duration, arguments) — with the current
+    ones BY VALUE ([Iter.key_eqb]).  [model/IterHash.v] is the iterator with that one test
+    replaced by [h key = h key'] for an arbitrary function [h] (keeping, with the frame, a
+    digest of the settings instead of the settings).  Frame caching validated through [h] is
+    invisible — for every deterministic renderable, every configuration with a valid
+    duration, every history — IF AND ONLY IF [h] separates any two valid keys: the
+    quantification over the VALUES of sizes, durations and argument fields is essential *)
+Theorem C09_hashed_cache_transparent_iff :
+  forall (h : key -> Z),
+    inj_valid h <->
+    (forall RS render n term c c' rs0 s s' ops,
+        render_det RS render -> same_but_cache c c' -> dur_valid (c_dur c) = true ->
+        mk RS n term c rs0 = inl s -> mk RS n term c' rs0 = inl s' ->
+        htrace RS render n term h s ops = htrace RS render n term h s' ops).
+Proof. exact hashed_cache_transparent_iff. Qed.
+Print Assumptions C09_hashed_cache_transparent_iff.
+
+(** the positive half on its own: with an [h] that separates valid keys the hashed-key
+    iterator yields, from every constructed state, the trace of the iterator of
+    [model/Iter.v], and caching is invisible *)
+Theorem C09_hashed_cache_transparent :
+  forall RS render n term (h : key -> Z),
+    inj_valid h ->
+    forall c c' rs0 s s' ops,
+      render_det RS render -> same_but_cache c c' -> dur_valid (c_dur c) = true ->
+      mk RS n term c rs0 = inl s -> mk RS n term c' rs0 = inl s' ->
+      htrace RS render n term h s ops = htrace RS render n term h s' ops.
+Proof. exact hashed_cache_transparent. Qed.
+Print Assumptions C09_hashed_cache_transparent.
+
+(** the negative half on its own, constructively: for EVERY [h] and any two distinct valid
+    keys it confuses, the deterministic two-frame renderable [echo_render] and the history
+    next; set_render_size; set_frame_duration; set_render_args; seek(0); next separate the
+    caching iterator from the non-caching one *)
+Theorem C09_hashed_cache_needs_injective :
+  forall (h : key -> Z) k k' term,
+    key_valid k = true -> key_valid k' = true -> k <> k' -> h k = h k' ->
+    exists s s',
+      mk unit (Some 2) term (collide_cfg k true) tt = inl s /\
+      mk unit (Some 2) term (collide_cfg k false) tt = inl s' /\
+      htrace unit echo_render (Some 2) term h s (collide_ops k')
+      <> htrace unit echo_render (Some 2) term h s' (collide_ops k').
+Proof. exact hashed_cache_needs_injective. Qed.
+Print Assumptions C09_hashed_cache_needs_injective.
+
+(** CPython's [hash] of an integer ([py_int_hash]: sign * (|x| mod (2^61 - 1)), -1 -> -2)
+    confuses -1 with -2 and any value with the one [2^61 - 1] further from zero; hence a key
+    digest that sees an argument value only through it — however the component hashes are
+    combined ([g] arbitrary) — makes the cache visible *)
+Theorem C09_py_int_hash_collisions :
+  py_int_hash (-1) = py_int_hash (-2) /\ py_int_hash 0 = py_int_hash py_modulus /\
+  py_int_hash 5 = py_int_hash (5 + py_modulus) /\ py_int_hash (-7) = py_int_hash (-7 - py_modulus).
+Proof. exact py_int_hash_collisions. Qed.
+Print Assumptions C09_py_int_hash_collisions.
+
+Theorem C09_py_int_hash_period :
+  forall x, 0 <= x -> py_int_hash (x + py_modulus) = py_int_hash x.
+Proof. exact py_int_hash_period. Qed.
+Print Assumptions C09_py_int_hash_period.
+
+Theorem C09_py_hashed_cache_refuted :
+  forall (g : Z * Z * Z * Z -> Z) term,
+    let h := fun k => g (arg_hashed_key k) in
+    exists k k' s s',
+      k <> k' /\
+      mk unit (Some 2) term (collide_cfg k true) tt = inl s /\
+      mk unit (Some 2) term (collide_cfg k false) tt = inl s' /\
+      htrace unit echo_render (Some 2) term h s (collide_ops k')
+      <> htrace unit echo_render (Some 2) term h s' (collide_ops k').
+Proof. exact py_hashed_cache_refuted. Qed.
+Print Assumptions C09_py_hashed_cache_refuted.
+
+(** the image iterator keys its cache by [hash(rendered_size)] (hypothesis [hash_separates] of
+    [C09_imgiter_cache_transparent]); the components of a rendered size are positive and far
+    below [2^61 - 1], where the integer hash is injective: the collisions above (-1 / -2, a
+    difference of [2^61 - 1]) are not reachable by a rendered size *)
+Theorem C09_py_int_hash_small_inj :
+  forall x y, 0 <= x < py_modulus -> 0 <= y < py_modulus -> py_int_hash x = py_int_hash y -> x = y.
+Proof. exact py_int_hash_small_inj. Qed.
+Print Assumptions C09_py_int_hash_small_inj.
